@@ -68,7 +68,7 @@ var concJudged = map[string]string{
 	"C09": "any",
 	"C06": "merge put del get",
 	"C05": "batch put del get",
-	"C10": "iter",
+	"C10": "iter fold",
 	"C20": "backup",
 	"C18": "-", // the hint file is judged once the callers are quiescent
 	"C17": "-", // nothing in the concurrent phase: Stat is recomputed once the callers are quiescent
@@ -288,7 +288,22 @@ func (r *Runner) clientMain(ts *taskState, ops []Op) {
 			ts.inc("conc_lists")
 		case "fold":
 			var err error
-			p, fr := protect(func() { err = r.DB.Fold(func(k, v []byte) bool { return true }) })
+			type kvp struct{ k, v string }
+			var visited []kvp
+			call := vrt.Stamp()
+			snapAt := uint64(0)
+			p, fr := protect(func() {
+				err = r.DB.Fold(func(k, v []byte) bool {
+					if snapAt == 0 {
+						snapAt = vrt.Stamp() // the snapshot was taken before the first call-back
+					}
+					visited = append(visited, kvp{string(k), string(v)})
+					return true
+				})
+			})
+			if snapAt == 0 {
+				snapAt = vrt.Stamp()
+			}
 			if p != "" {
 				ts.fail(prop, judged, i, "panic", "Fold@"+fr, "Fold: %s (in %s)", clip(p, 300), fr)
 				return
@@ -296,6 +311,26 @@ func (r *Runner) clientMain(ts *taskState, ops []Op) {
 			if err != nil {
 				ts.fail(prop, judged, i, "bogus-error", "Fold:"+errName(err), "Fold returned %s", errName(err))
 				return
+			}
+			if prop == "C10" {
+				// Fold visits one snapshot: every (key, value) it hands out - and the absence of every other key - is
+				// a read at one instant between the call and the first call-back; the per-key history check decides
+				// whether such an instant exists while writers run
+				seen := map[string]bool{}
+				for j, kv := range visited {
+					if j > 0 && visited[j-1].k >= kv.k {
+						ts.fail(prop, true, i, "fold-order", "", "Fold visits %q after %q", kv.k, visited[j-1].k)
+						return
+					}
+					seen[kv.k] = true
+					ts.hist = append(ts.hist, HistOp{3000 + ts.id*100 + i, "get", kv.k, "", kv.v, true, call, snapAt})
+				}
+				for _, k := range r.keySpace() {
+					if !seen[k] {
+						ts.hist = append(ts.hist, HistOp{3000 + ts.id*100 + i, "get", k, "", "", false, call, snapAt})
+					}
+				}
+				ts.inc("conc_fold_snapshots")
 			}
 			ts.inc("conc_folds")
 		case "stat":
